@@ -36,7 +36,7 @@ class C06(Spec):
                 "Nun.C06_incremental_roundtrip", "Nun.snapFold_inc", "Nun.loadLoop_recs", "Nun.pwrite_record",
                 "Nun.C06_snapshot_restores_after_any_history", "Nun.C06_history_inv", "Nun.C06_reclaim_inv", "Nun.restart_inv", "Nun.J_fresh", "Nun.load_clean"]
     rule = ("all sequences of length L over {set (values of 0, 1, 6 multi-byte and 300 bytes), set-safe, remove, increment, snapshot false, snapshot true, restart} x keys, "
-            "plus seeded random sequences up to length 40 over 3 keys and 2 databases; the snapshot files are compared byte for byte with the Lean model after every snapshot and the reloaded dataset with the model's loader; "
+            "plus every sequence of length 6 (7) over {set, increment, remove, incremental snapshot} on ONE key followed by snapshot + restart, plus seeded random sequences up to length 40 over 3 keys and 2 databases; the snapshot files are compared byte for byte with the Lean model after every snapshot and the reloaded dataset with the model's loader; "
             "oracle: dataset captured at each completed snapshot vs the dataset after the next restart. non-trivial = at least one snapshot that writes something and one restart; distinct by trace hash")
 
     def corpus(self):
@@ -66,6 +66,16 @@ class C06(Spec):
                     for x in m1: c += x
                     c += ["C 1 snapshot false", "SNAP"] + m2 + ["C 1 snapshot false", "SNAP", "RESTART"] + AFTER + m3 + ["C 1 snapshot false", "SNAP", "RESTART"] + AFTER + ["C 1 keys"]
                     cases.append(c)
+        # one key through its whole state machine: every sequence of {set, increment, remove, incremental snapshot} of length 6 (quick)
+        # / 7 (thorough), then a snapshot and a restart — New / Updated / Deleted / re-created entries meeting records that already
+        # exist for the key (a second record for a key, a tombstone on the wrong record, a version that restarts)
+        one = [["C 1 set n 41"], ["C 1 increment n"], ["C 1 remove n"], ["C 1 snapshot false", "SNAP"]]
+        for seq in itertools.product(one, repeat=6 if tier == "quick" else 7):
+            if sum(1 for x in seq if x[0].startswith("C 1 snapshot")) not in (1, 2, 3): continue
+            c = list(SETUP)
+            for x in seq: c += x
+            c += ["C 1 snapshot false", "SNAP", "RESTART"] + AFTER + ["C 1 get-safe n", "C 1 keys"]
+            cases.append(c)
         rng = core.XorShift(seed)
         al2 = alphabet(("a", "bb", "c"))
         for _ in range(500 if tier == "quick" else 8000):
